@@ -20,5 +20,7 @@ CHECKS = {
     "C14": eng(Q(4, 1200), Q(16, 25000, timeout=3000)),
     "C15": eng(Q(4, 1500), Q(16, 40000, timeout=3000)),
     "C16": eng(Q(4, 1200), Q(16, 30000, timeout=3000)),
+    "C17": eng(Q(4, 1500), Q(16, 30000, timeout=3000)),
+    "C18": eng(Q(4, 600), Q(16, 8000, timeout=3000), variants=[{"tags": ["verif"]}, {"tags": ["verif", "ark_tiny"]}]),
     "C19": eng(Q(4, 1500), Q(16, 30000, timeout=3000)),
 }
